@@ -54,18 +54,31 @@ type PolicySpec struct {
 }
 
 func (s PolicySpec) Build() *ae.CryptoPolicy {
-	p := ae.NewCryptoPolicy(
-		ae.WithExpireAfterDuration(E*time.Second),
-		ae.WithRevokeCheckInterval(R*time.Second),
-	)
-	p.CreateDatePrecision = P * time.Second
-	p.CacheSystemKeys = s.CacheSK
-	p.CacheIntermediateKeys = s.CacheIK
-	if s.NoCache {
-		p.CacheSystemKeys = false
-		p.CacheIntermediateKeys = false
+	// built through the public option functions and defaults wherever one exists, so that they are on the verified path
+	opts := []ae.PolicyOption{
+		ae.WithExpireAfterDuration(E * time.Second),
+		ae.WithRevokeCheckInterval(R * time.Second),
 	}
-	p.SharedIntermediateKeyCache = s.SharedIK
+	if s.NoCache {
+		opts = append(opts, ae.WithNoCache())
+	}
+	if s.SharedIK {
+		size := s.IKSize
+		if size == 0 {
+			size = ae.DefaultKeyCacheMaxSize
+		}
+		opts = append(opts, ae.WithSharedIntermediateKeyCache(size))
+	}
+	if s.Sessions {
+		opts = append(opts, ae.WithSessionCache(), ae.WithSessionCacheMaxSize(s.SessSize), ae.WithSessionCacheDuration(time.Duration(s.SessDur)*time.Second))
+	}
+	p := ae.NewCryptoPolicy(opts...)
+	p.CreateDatePrecision = P * time.Second
+	if !s.NoCache && !(s.CacheSK && s.CacheIK) {
+		// system-key-only / intermediate-key-only caching has no option function
+		p.CacheSystemKeys = s.CacheSK
+		p.CacheIntermediateKeys = s.CacheIK
+	}
 	if s.IKPolicy != "" {
 		p.IntermediateKeyCacheEvictionPolicy = s.IKPolicy
 		p.IntermediateKeyCacheMaxSize = s.IKSize
@@ -75,10 +88,7 @@ func (s PolicySpec) Build() *ae.CryptoPolicy {
 		p.SystemKeyCacheMaxSize = s.SKSize
 	}
 	if s.Sessions {
-		p.CacheSessions = true
-		p.SessionCacheMaxSize = s.SessSize
 		p.SessionCacheEvictionPolicy = s.SessPolicy
-		p.SessionCacheDuration = time.Duration(s.SessDur) * time.Second
 	}
 	return p
 }
